@@ -10,7 +10,7 @@ Requests (one per line):
   <cfg> := <interfaces : list int> <workers : int> <moves : list 0/1> <cap : - | int>
            <lm1 : A | F | int> <quantis : - | 0 | 1>
            <ensemble_engines : - | list (list str)> <engines : list (str cls ip other)>   ip := - | nat
-           <seed : - | int> <accept_all : - | 0 | 1> [<current.size : - | nat>]   (absent = "-": no [current] table)
+           <seed : - | int> <accept_all : - | 0 | 1> [<current.size : - | nat> [<interfaces are numbers : 0 | 1>]]   (absent = "-": no [current] table; 1)
   checkasis / loadasis: the code before /repo commit 971ccbc (`checkAsIs`, `startUpAsIs`)
 -/
 
@@ -81,6 +81,14 @@ def parseCfg (toks : List String) : Option Cfg := do
           let size ← optTok parseNat? size
           pure { interfaces := intf, workers := w, moves := mv, cap := cap, lm1 := lm1, quantis := q,
                  ensEngines := ee, engines := engs, seed := seed, acceptAll := acc, curSize := size }
+        | [seed, acc, size, num] =>
+          let seed ← optTok parseInt? seed
+          let acc ← optTok parseBool? acc
+          let size ← optTok parseNat? size
+          let num ← parseBool? num
+          pure { interfaces := intf, workers := w, moves := mv, cap := cap, lm1 := lm1, quantis := q,
+                 ensEngines := ee, engines := engs, seed := seed, acceptAll := acc, curSize := size,
+                 intfNumeric := num }
         | _ => none
       | [] => none
     | _ => none
